@@ -27,6 +27,7 @@ type GenOpts struct {
 	WrongResumes bool     // deliberately unacceptable resume types
 	Restarts     bool     // draw a restart bit per step
 	LowLimits    bool     // draw small engine limits
+	FrozenClocks bool     // some scenarios run with a clock that stands still within a sprint
 	Inputs       []string // extra input texts
 	MaxSteps     int      // resumes per scenario (default 6)
 	EnvTimezones []string
@@ -199,9 +200,21 @@ func DrawTrigger(t *rapid.T, w *world.World, o GenOpts) M {
 	case "flow_action":
 		parentContact := DrawContact(t, w, o, env["timezone"].(string))
 		parentContact["uuid"] = world.UUID("contact", 2)
+		results := M{"color": M{"name": "Color", "value": "red", "category": "Red", "node_uuid": world.UUID("node", 999), "created_on": "2024-01-01T00:00:00Z"}}
+		// results with extra (webhook-style) whose keys overlap; created at the same or different instants
+		if rapid.Bool().Draw(t, "parentextras") {
+			for i, name := range []string{"lookup", "backup", "alt"}[:rapid.IntRange(1, 3).Draw(t, "nextras")] {
+				created := "2024-01-01T00:00:05Z"
+				if rapid.IntRange(0, 2).Draw(t, "extratime") == 0 {
+					created = fmt.Sprintf("2024-01-01T00:00:%02dZ", rapid.IntRange(0, 9).Draw(t, "extrasec"))
+				}
+				results[name] = M{"name": name, "value": "200", "category": "Success", "node_uuid": world.UUID("node", 999), "created_on": created,
+					"extra": M{"code": i + 1, "name": name, "only_" + name: true}}
+			}
+		}
 		tr["run_summary"] = M{
 			"uuid": world.UUID("run", 99), "flow": M{"uuid": world.UUID("flow", 50), "name": "Parent Flow"}, "contact": parentContact, "status": "active",
-			"results": M{"color": M{"name": "Color", "value": "red", "category": "Red", "node_uuid": world.UUID("node", 999), "created_on": "2024-01-01T00:00:00Z"}},
+			"results": results,
 		}
 	}
 	return tr
@@ -210,7 +223,7 @@ func DrawTrigger(t *rapid.T, w *world.World, o GenOpts) M {
 // DrawOptions draws engine options.
 func DrawOptions(t *rapid.T, o GenOpts) Options {
 	if !o.LowLimits {
-		return Options{}
+		return Options{FrozenClock: o.FrozenClocks && rapid.IntRange(0, 2).Draw(t, "frozenclock") == 0}
 	}
 	return Options{
 		MaxStepsPerSprint:    rapid.SampledFrom([]int{0, 1, 2, 3, 10, 100}).Draw(t, "maxsteps"),
